@@ -12,8 +12,9 @@ def run(ctx):
     core_specs.namespace(ctx)
     binp = ctx.build_harness(cc.HARNESS)
     q = ctx.quick()
-    trace, res, summ = cc.run_profile(ctx, binp, "ns", 40 if q else 640, 24 if q else 40)
-    cc.report(ctx, PID, res, trace, "ns")
+    runs = cc.run_profile(ctx, binp, "ns", 40 if q else 320, 24 if q else 40)
+    cc.report_all(ctx, PID, runs, "ns")
+    trace, res = runs[0]
     cc.mutate_and_reject(ctx, trace, "ns", cc.mut_flip_status if PID != "C04" else cc.mut_wrong_type, "corrupted reply")
     ctx.cov["rule"] = ("seeded sequential histories over names {a,b,c} (plus invalid names), depth <= 3, all namespace procedures "
                        "with probe requests after every mutation, under all 8 cache configurations (negative cache, directory "
